@@ -387,7 +387,7 @@ PROPS["C16"] = {
     "technique": "stateful property-based testing (rapidcheck) + bounded exhaustive enumeration of operation sequences against a latest-message map model",
     "rule": "cases = sequences of {update(capture-module status | interface status | data packet | message of another kind (other status payload types, vendor, control, invalid-typed) of device d, interface i), "
             "removeDeviceById, removeInterfaceById, clear} over d in {0,1,2,3,65535}, i in {0,1,2,0xFFFFFFFF} or, in half of the cases, over a base id plus arithmetically related ids (x+1, x+32, x+64, x+128, x+256, top bit flipped; interfaces also x+65536); the exhaustive alphabet is run under three id mappings (plain, congruent mod 64, congruent mod 256), packets built through the "
-            "API or obtained from Decoder::decode; exhaustive: all sequences up to length 4 (thorough 5) over a 13-operation alphabet, "
+            "API or obtained from Decoder::decode; exhaustive: all sequences up to length 4 (thorough 5) over a 15-operation alphabet (incl. updates that repeat an earlier payload with other header fields), "
             "random up to 60 (thorough 120) operations; non-trivial when an effective removal / clear is followed by a further status "
             "update; distinct = distinct serialized sequences",
     "assumptions": COMMON_ASSUMPTIONS + ["entry order is not asserted (only ids, counts, lookups and stored packets)"],
